@@ -577,12 +577,16 @@ func (pb *c15Pub) run(stop chan struct{}, frame *int64, wg *sync.WaitGroup) {
 
 func c15Run(c *fw.Ctx, i int) {
 	// odd cases: the write timeout (10 s) is longer than the liveness sweep (2 s), so it is the
-	// sweep that disposes a consumer whose writer is blocked; even cases: the 1 s write timeout
-	// closes it first
+	// sweep that disposes a consumer whose writer is blocked; even cases: write timeout 1 s and a
+	// sweep that cannot fire during the run (60 s), so it must be the write timeout that closes it
+	// (RTSP connections have no write timeout in lal: their disconnect is judged in odd cases only)
 	wto := c15WriteTimeoutMs
+	sweep := uint32(60) // even cases: no sweep within the run - only the write timeout can disconnect a stalled consumer
 	if i%2 == 1 {
 		wto = 10000
+		sweep = 2
 	}
+	base.LogicCheckSessionAliveIntervalSec = sweep
 	// queue capacity: multi-part writes come in pairs, so with an even capacity a queue that fills
 	// from empty always fills at a pair boundary; odd capacities put the queue-full instant between
 	// the two parts
@@ -947,11 +951,13 @@ func c15Run(c *fw.Ctx, i int) {
 			continue
 		}
 		sf, st := atomic.LoadInt64(&cl.stalledFrame), atomic.LoadInt64(&cl.stopFrame)
-		if p.Mode == "stall" && sf >= 0 {
+		if p.Mode == "stall" && sf >= 0 && sweep != 2 && (p.Kind == "rtsp" || p.Kind == "wsrtsp") {
+			c.Count("stall_without_write_timeout_or_sweep_not_judged", 1)
+		} else if p.Mode == "stall" && sf >= 0 {
 			c.Count("pure_stall_consumers", 1)
 			if st < 0 && endFrame-sf > c15DisconnectFrames {
-				c.Violate("not-disconnected/"+p.Kind, fmt.Sprintf("%s consumer stopped reading at publisher frame %d and was still admitted %d frames (≥%d ms) later; write timeout %d ms, sweep 2 s",
-					p.Kind, sf, endFrame-sf, 2*(endFrame-sf), c15WriteTimeoutMs), p)
+				c.Violate("not-disconnected/"+p.Kind, fmt.Sprintf("%s consumer stopped reading at publisher frame %d and was still admitted %d frames (≥%d ms) later; write timeout %d ms, sweep %d s",
+					p.Kind, sf, endFrame-sf, 2*(endFrame-sf), wto, sweep), p)
 			} else if st >= 0 && st-sf > c15DisconnectFrames {
 				c.Violate("not-disconnected/"+p.Kind, fmt.Sprintf("%s consumer stopped reading at publisher frame %d and was disconnected only %d frames later", p.Kind, sf, st-sf), p)
 			} else if st >= 0 {
